@@ -217,7 +217,7 @@ theorem tableOK_cls {T : Table} (hT : tableOK T = true) {c : Nat} {ce : ClsE} (h
 
 theorem clsOK_props {ce : ClsE} (h : ce.ok = true) : ∀ p ∈ ce.props, p.ok = true := by
   simp only [ClsE.ok, Bool.and_eq_true, List.all_eq_true] at h
-  exact h.1
+  exact h.1.1
 
 theorem propOK {p : PropE} (h : p.ok = true) : p.ctor.ok = true ∧ p.absent.ok = true ∧ p.get.ok = true := by
   simp only [PropE.ok, Bool.and_eq_true] at h
